@@ -26,7 +26,8 @@ META = dict(
                                   "multi-instruction sequences", query_timeout_s=20),
                 thorough=dict(generated_blocks=12000, assignblocks_per_block="1..6", assignments_per_assignblock="1..3",
                               lifted="same", query_timeout_s=60)),
-    outside=["run_at over several blocks (only single blocks / straight-line sequences)", "instructions the lifters do not "
+    outside=["run_at over several blocks (only single blocks / straight-line sequences)", "generated blocks with two memory "
+             "stores in one AssignBlock (overlapping parallel stores have no defined order)", "instructions the lifters do not "
              "support", "FP and other operators without fixed meaning are uninterpreted on both sides"],
     assumptions=["non-aliasing: byte ranges accessed through different symbolic bases are pairwise disjoint (hypotheses "
                  "collected by tracing the pointers of every access)", "memory: little-endian flat byte space, pointer wrap at "
@@ -115,7 +116,11 @@ def gen_program(rnd):
                 ab.append((reg(d), expr(32)))
             else:
                 sz = rnd.choice([8, 16, 32, 32])
-                ab.append((mem(sz), expr(sz)))
+                st = (mem(sz), expr(sz))
+                # one store per AssignBlock: two parallel stores may overlap (@16[B2] and @32[B2 - 2]), and the effect of
+                # overlapping parallel assignments is not defined (the engine and a reference may order them differently)
+                if not any(d_.startswith('ExprMem') for d_, _ in ab):
+                    ab.append(st)
         if rnd.random() < 0.15:
             x, y = rnd.sample(R, 2)
             ab = [(reg(x), reg(y)), (reg(y), reg(x))]
